@@ -1611,12 +1611,11 @@ where
                 Ok(())
             }
             AttributeAction::SetVr(new_vr) => {
+                // only applies if the attribute exists
                 if let Some(e) = self.entries.remove(&tag) {
                     let (header, value) = e.into_parts();
                     let e = DataElement::new(header.tag, new_vr, value);
                     self.put(e);
-                } else {
-                    self.put(DataElement::empty(tag, new_vr));
                 }
                 Ok(())
             }
